@@ -966,6 +966,8 @@ func c16Multi(r *Run) {
 			r.Go(at.name, func() {
 				defer func() { at.done = true; wg.Done() }()
 				for k := 0; k < 2*C+2; k++ {
+					// at scattered moments, so that the queue is usually not empty when a connection ends
+					r.Sleep(ms(T.Draw("extraAcceptor.pause", 60)))
 					var err error
 					at.call(r, "Server.AcceptAny", func() { _, err = srv.AcceptAny() })
 					if err != nil {
